@@ -304,7 +304,10 @@ def sim_scripts(workdir, cfgs, n_each, depth, seed, quiesce, block=False):
     return [s for ss in res for s in ss]
 
 
-FREE_CFGS = [(3, 3, 2), (4, 2, 3), (2, 5, 2), (4, 1, 1), (3, 2, 1), (2, 4, 3), (1, 5, 1), (4, 3, 2)]
+FREE_CFGS = [(3, 3, 2), (4, 2, 3), (2, 5, 2), (4, 1, 1), (3, 2, 1), (2, 4, 3), (1, 5, 1), (4, 3, 2),
+             # rings whose size is not a power of two, with producers that can build a backlog just below it ("while fewer messages
+             # than the ring size are outstanding none may be dropped": the ring really has the size it was asked for)
+             (1, 5, 6), (2, 3, 7), (1, 5, 5)]
 
 
 def free_scripts(n, seed, quiesce):
@@ -485,10 +488,10 @@ def check(pid, tier, seed, replay=None):
         log("%s: contract validated %.0fs" % (pid, time.time() - t0))
         conf = validate_impl(sc, recs)
         log("%s: impl validated %.0fs" % (pid, time.time() - t0))
-        # C10 also on a 32-bit build (GOARCH=386 binaries run on this kernel): the 64-bit atomics of the ring need 64-bit alignment
+        # all three also on a 32-bit build (GOARCH=386 binaries run on this kernel): the 64-bit atomics of the ring need 64-bit alignment
         # there, which is a matter of struct layout - same player, same contract, a sample of the schedules
         n386 = 0
-        if pid == "C10" and not replay:
+        if not replay:
             p386, _ = build_player(sc, goarch="386")
             sample = [s for s in scripts if s["id"].startswith(("free-", "sim", "cover-"))][:: max(1, len(scripts) // 150)]
             recs386 = play(p386, sc, sample, shards=4, tag="x86-")
@@ -496,7 +499,7 @@ def check(pid, tier, seed, replay=None):
             for ri, k, e, sig in validate_contract(sc, recs386, shards=4):
                 s386, obs_lines, _ = recs386[ri]
                 if e["a"] in OWN_EVENTS[pid]:
-                    bads.append((len(recs) + ri, k, e, ""))
+                    bads.append((len(recs) + ri, k, e, sig))
             recs = recs + recs386
             log("%s: 32-bit build: %d schedules %.0fs" % (pid, n386, time.time() - t0))
         known = known_signatures(pid)
